@@ -213,9 +213,12 @@ def view_opt(df):
 
 
 def phi_opt(res):
-    if res.individual_ofv is None or res.individual_estimates is None or res.individual_estimates_covariance is None:
+    return phi_triple_opt(res.individual_ofv, res.individual_estimates, res.individual_estimates_covariance)
+
+
+def phi_triple_opt(iofv, ie, iec):
+    if iofv is None or ie is None or iec is None:
         return 'None'
-    iofv, ie, iec = res.individual_ofv, res.individual_estimates, res.individual_estimates_covariance
     return ('(Some (mkPhiRes ' + ct.lst([cellterm(x) for x in iofv.index]) + ' ' + ct.lst([cellterm(x) for x in iofv.values]) + ' '
             + ct.lst([T(str(c)) for c in ie.columns]) + ' '
             + ct.lst([ct.lst([cellterm(x) for x in row]) for row in ie.itertuples(index=False, name=None)]) + ' '
@@ -379,7 +382,34 @@ def observe_run(d, spec, results_mod=None):
             + ct.boolean(psd) + '\n  ' + phi_opt(res) + '\n  ' + view_opt(res.predictions) + ' ' + view_opt(res.residuals)
             + '\n  ' + cellterm(jofv) + ' ' + named(jpe) + ' ' + named(jse) + ' ' + matrix_opt(jcov) + ' ' + ct.boolean(jrest) + ' ' + ct.boolean(jclose) + '))')
     info['cov'] = cov is not None
+    if spec.get('phi'):
+        info['sub_obs'] = observe_phi_sub(d, model, nm, res, len(spec['phi']), results_mod)
     return term, nm, pfix, rv, covstatus, info
+
+
+def observe_phi_sub(d, model, nm, res, n, results_mod):
+    """results._parse_phi with the subproblem argument: [(k or None, Gallina term of type Sub.sub_obs)]."""
+    out = []
+    for k in sorted({0, 1, n, n + 1, -n}):
+        try:
+            with warnings.catch_warnings():
+                warnings.simplefilter('ignore')
+                iofv, ie, iec = results_mod._parse_phi(d / 'run1.mod', model.internals.control_stream, nm,
+                                                       model.random_variables.etas, model, res.parameter_estimates,
+                                                       subproblem=k)
+            out.append((k, '(SubRes ' + phi_triple_opt(iofv, ie, iec) + ')'))
+        except Exception:  # noqa
+            out.append((k, 'SubExc'))
+    return out
+
+
+def sub_terms(texts, nm, rv, info):
+    terms = []
+    for k, obs in info.get('sub_obs', []):
+        sub = 'None' if k is None else f'(Some ({k})%Z)'
+        terms.append('(mkSub ' + T(texts['phi']) + '\n ' + ct.lst([f'({T(a)}, {T(b)})' for a, b in nm.items()]) + ' '
+                     + ct.lst([T(x) for x in rv]) + ' ' + sub + '\n ' + obs + ')')
+    return terms
 
 
 def opt_text(s):
@@ -415,6 +445,8 @@ def rcase_term(ctx, spec, k, results_mod=None, perturb=None):
             + wtab + ' ' + expected + ' (1#10000)%Q (1#1000000000)%Q\n ' + obs + ')')
     info['covstatus'] = covstatus
     info['covfiles'] = cf
+    info['sub_terms'] = [] if perturb else sub_terms(texts, nm, rv, info)
+    info.pop('sub_obs', None)
     return term, info
 
 
@@ -459,6 +491,21 @@ def run_rspecs(ctx, specs, label, quiet=False, **kw):
     if not quiet:
         for spec, tags in zip(specs, verdicts):
             stats[classify_r(ctx, spec, tags)] += 1
+    # _parse_phi(subproblem=k) against C20/Sub.v (correspondence tag 6)
+    sterms = [(spec, t) for spec, info in zip(specs, infos) for t in info.pop('sub_terms', [])]
+    if sterms:
+        sverdicts = ctx.run_cases(label + '_sub', IMPORTS + ' C20.Sub', 'subcase', [t for _, t in sterms], 'subverdict',
+                                  shard=16, prelude=PRELUDE + '\nOpen Scope Z_scope.\nOpen Scope N_scope.')
+        stats['phi_subproblem'] = {'n': len(sterms), 'inconclusive': sum(1 for v in sverdicts if any(t >= 1000 for t in v)),
+                                   'disagree': 0}
+        if not quiet:
+            for (spec, _), tags in zip(sterms, sverdicts):
+                if any(t < 1000 for t in tags):
+                    stats['phi_subproblem']['disagree'] += 1
+                    stats['broken'] += 1
+                    ctx.broken.append('correspondence C20 _parse_phi(subproblem) model vs implementation: ' + RTAGS[6]
+                                      + ' on ' + json.dumps(spec)[:600])
+                    ctx.coverage.setdefault('corr_disagreements', []).append({'spec': spec, 'tags': sorted(tags), 'level': 'phi_subproblem'})
     shutil.rmtree(ctx.rundir / 'runs', ignore_errors=True)
     return verdicts, infos, stats
 
